@@ -514,9 +514,10 @@ def conc_recheck(prop, params, model, workdir, seed):
             order = ["/".join(["name"] + list(f["path"])) for f in info["files"]]
         else:
             order = v1_order(params["shape"])
-        table = conc_table(params["version"], params["shape"], params["P"], data, disk, order)
         refs_ok = None
-        if params["version"] == 1 and any(isinstance(f, dict) and "attr" in f for f in info.get("files", [])):
+        aligned_v1 = params["version"] == 1 and any(isinstance(f, dict) and "attr" in f for f in info.get("files", []))
+        table = [] if aligned_v1 else conc_table(params["version"], params["shape"], params["P"], data, disk, order)
+        if aligned_v1:
             # piece-aligned v1: the stream contains the padding entries; either reading of "payload bytes" is accepted
             P_ = params["P"]
             exp, dsk, mask = bytearray(), bytearray(), bytearray()
